@@ -23,7 +23,7 @@
 import yvlib
 from yvlib import hx
 
-LADDER = [2, 17, 33, 62, 63, 64, 65, 130, 300]
+LADDER = [2, 17, 33, 62, 63, 64, 65, 130, 300]   # + 1100 (every place) and 5000 (top-level loop) for every kind but `distinct`
 WRAPS = ["top", "fn", "fnloop", "fiber", "onefiber", "closure"]
 BODY_KINDS = ["throw", "name", "deep", "missing-inside", "nested"]
 KINDS = BODY_KINDS + ["missing", "bad", "cached", "distinct", "mixed", "cycle", "cycle2"]
@@ -216,9 +216,12 @@ def history_cases(rng, quick, fm):
     extra = sorted({rng.randint(3, 400), rng.randint(66, 260)})
     for kind in KINDS:
         wheres = ["host"] if kind in HOST_ONLY else ["main", "host"]
-        for n in LADDER + extra:
+        big = [] if kind == "distinct" else [1100, 5000]
+        for n in LADDER + extra + big:
             for where in wheres:
                 for wrap in WRAPS:
+                    if n == 5000 and wrap != "top":
+                        continue
                     cases.append(history_case(kind, n, where, wrap))
     for d in [2, 17, 33, fm - 4, fm - 3, fm - 2, fm - 1, fm, fm + 1, fm + 6, 130]:
         cases.append(chain_case(d, fm))
